@@ -12,7 +12,7 @@ HARNESSES = [
  for op in range(int(__import__('os').environ.get('VX_C13_OPS', '4')))    # insert/delete/replace (OP 1..3): the virtual getRanges() call on the raw document object makes CBMC dispatch over every
                           # address-taken function; no verdict within 600 s, so they are not registered (code kept in the harness)
 ]
-CLAIMS.update({'treelinks_' + o + '_' + pn: 'DOMParentNode::%s on a parent that is %s, through real Element/Text/DocumentFragment objects, one operation from every well-formed forest over 4 nodes with arbitrary child operands: resulting tree = DOM Core reference model, illegal operations raise the named DOMException and change nothing' % (f, pd)
+if __import__('os').environ.get('VX_C13_TREE'): CLAIMS.update({'treelinks_' + o + '_' + pn: 'DOMParentNode::%s on a parent that is %s, through real Element/Text/DocumentFragment objects, one operation from every well-formed forest over 4 nodes with arbitrary child operands: resulting tree = DOM Core reference model, illegal operations raise the named DOMException and change nothing' % (f, pd)
                for o, f in [('insert', 'insertBefore/appendChild'), ('remove', 'removeChild'), ('replace', 'replaceChild')] for pn, pd in [('elem', 'an element'), ('frag', 'a document fragment'), ('text', 'a text node')]})
 ASSUMPTIONS += ['treelinks: attribute maps / default attributes of the element constructor cut; document virtuals getRanges/getNodeIterators/changed served by stubs (no live views: C14)', 'treelinks: replaceChild(n, n) not judged (implementation dependent in DOM Core)']
 TOPS = ['insert', 'remove', 'replace']; TPAR = {0: 'elem', 3: 'frag', 2: 'text'}
@@ -26,8 +26,20 @@ HARNESSES += [
       defs={'all': dict({'OP': op, 'P': par}, **({'CFIX': int(__import__('os').environ['VX_CFIX'])} if __import__('os').environ.get('VX_CFIX') else {}), **({'NOOP': 1} if __import__('os').environ.get('VX_NOOP') else {}), **({'SMALL': 1} if __import__('os').environ.get('VX_SMALL') else {}))}, unwind={'quick': 6, 'thorough': 6}, timeout={'quick': 1500, 'thorough': 3000}, mem_gb=24, cbmc_flags=['--sat-solver', 'cadical'])
  for par in (0, 3, 2) for op in range(3 if __import__('os').environ.get('VX_C13_TREE') else 0)      # gated until the harness reaches a verdict
 ]
-LEVEL_TEXT = ('Bounded model checking of the real DOM character-data code through a real Text node object: for ALL contents, offsets, counts (64-bit) and inserted strings within the bound the result equals the DOM Core '
-              'string operation and the specified exceptions are raised with the data left unchanged.')
-LEVEL_NOTE = ('NOT claimed: insertData/deleteData/replaceData (harness exists, no verdict), tree-link mutations (insertBefore/removeChild/replaceChild), attribute maps, import/adopt/rename/normalize, reference-DOM equivalence over histories (see DESIGN.md for what was attempted). '
-              'Bounds: N <= 3 units (quick) / 5.')
+CLAIMS.update({'childlist_' + o: 'DOMParentNode::%s on one real element with up to three real text children, arbitrary operands: representation of every node = DOM Core result, NOT_FOUND_ERR for non-children with nothing changed' % f for o, f in [('remove', 'removeChild')]})
+HARNESSES += [
+ dict(name='childlist_' + nm, entry='harness_childlist', srcs=['C13/childlist.cpp', 'C13/domstubs.cpp', 'C13/elemstubs.cpp'],
+      tus=['dom/impl/DOMParentNode.cpp', 'dom/impl/DOMElementImpl.cpp', 'dom/impl/DOMTextImpl.cpp', 'dom/impl/DOMDocumentImpl.cpp', 'dom/impl/DOMCharacterDataImpl.cpp',
+           'dom/impl/DOMNodeImpl.cpp', 'dom/impl/DOMChildNode.cpp', 'dom/impl/DOMNodeListImpl.cpp', 'dom/impl/DOMStringPool.cpp', 'util/XMLString.cpp'],
+      cuts_everywhere=['_ZN11xercesc_4_015DOMDocumentImpl15getPooledStringEPKDs', '_ZnwmPN11xercesc_4_015DOMDocumentImplE'],
+      cuts=['_ZN11xercesc_4_09DOMBuffer14expandCapacityEmb', '_ZN11xercesc_4_020DOMCharacterDataImplC[12]EPNS_11DOMDocumentEPKDs', '_ZN11xercesc_4_020DOMCharacterDataImplD[12]Ev',
+            '_ZN11xercesc_4_014DOMElementImpl22setupDefaultAttributesEv', '_ZNK11xercesc_4_015DOMDocumentImpl*', '_ZN11xercesc_4_015DOMDocumentImpl[!7]*', '_ZN11xercesc_4_015DOMDocumentImpl7[!i]*', '_ZNK11xercesc_4_011DOMNodeImpl20callUserDataHandlersENS_18DOMUserDataHandler16DOMOperationTypeEPKNS_7DOMNodeEPS3_'],
+      defs={'all': dict({'OP': op}, **({'MODE': mode} if op == 0 else {}))}, unwind=4 if op == 0 else 6, unwind_gentle=True, unwind_cap=8, timeout={'quick': 1500, 'thorough': 2400}, mem_gb=40)
+ for op, mode, nm in (((0, 0, 'add'), (0, 1, 'move')) if __import__('os').environ.get('VX_C13_INSERT') else ()) + ((1, 0, 'remove'),)      # insertBefore: solver out of memory at 40 GB (gated off, not claimed)
+]
+LEVEL_TEXT = ('Bounded model checking of the real DOM character-data code through a real Text node object (for ALL contents, offsets, counts (64-bit) and inserted strings within the bound the result equals the DOM Core '
+              'string operation and the specified exceptions are raised with the data left unchanged) and of removeChild on a real element with up to three real text children (every list length and operand: the representation of every node '
+              'equals the DOM Core result; a non-child raises NOT_FOUND_ERR and changes nothing).')
+LEVEL_NOTE = ('NOT claimed: insertBefore/appendChild/replaceChild and general forests (harnesses treelinks_* and childlist_add/move exist, no verdict: solver out of memory, see DESIGN.md 7.6), attribute maps, import/adopt/rename/normalize, '
+              'reference-DOM equivalence over histories. Bounds: chardata N <= 2 units (quick) / 4; childlist: one element, three text nodes.')
 
